@@ -9,7 +9,7 @@ import (
 	"verif/harness/pbt"
 )
 
-var forwardPart = pbt.Part[Case]{Name: "forward", Quick: 40000, Thorough: 800000, Gen: genCase, Check: checkCase}
+var forwardPart = pbt.Part[Case]{Name: "forward", Quick: 100000, Thorough: 2000000, Gen: genCase, Check: checkCase}
 
 // TestProp is the entry point the driver runs in every shard.
 func TestProp(t *testing.T) {
